@@ -507,6 +507,15 @@ def judgeScan (st : JState) (caseLine : String) (ctoks otoks : List String) : JS
     let ok := got "c0" == want 0 && got "c1" == want 1 && got "c2" == want 2 && got "c3" == want 2
     (st.bump "cases.classes" 1024, if ok then [] else
       [mkFail "C12" true "a class table differs from the RFC class" caseLine (" ".intercalate otoks)])
+  | ["errtext"] =>
+    -- the text each error prints (`Display` / `Error::description`) names the element the kind stands for
+    let want : List (String × String) :=
+      [("HeaderName", "invalid_header_name"), ("HeaderValue", "invalid_header_value"), ("NewLine", "invalid_new_line"),
+       ("Status", "invalid_response_status"), ("Token", "invalid_token"), ("TooManyHeaders", "too_many_headers"),
+       ("Version", "invalid_HTTP_version"), ("ChunkSize", "invalid_chunk_size")]
+    let bad := want.filter fun (k, v) => (kv otoks k).getD "" != v || (kv otoks (k ++ ".dbg")).getD "" != k
+    (st.bump "cases.errtext" 8, bad.map fun (k, v) =>
+      mkFail "C10" true s!"the text / Debug name printed for error kind {k} does not name that kind's element (expected '{v}')" caseLine (" ".intercalate otoks))
   | ["utf8", hex] =>
     match unhex? hex with
     | some buf =>
@@ -596,6 +605,8 @@ def judgeLine (st : JState) (l : String) : JState × List String :=
     | "split" :: _ => judgeMulti st caseLine ctoks obsS
     | "cfgpair" :: _ => judgeMulti st caseLine ctoks obsS
     | "capsweep" :: _ => judgeMulti st caseLine ctoks obsS
+    -- the same sweep with buffer and header array touching in memory (the reference capacity apart)
+    | "capsweepj" :: _ :: rest => judgeMulti st caseLine ("capsweep" :: rest) obsS
     | "hrel" :: _ => judgeMulti st caseLine ctoks obsS
     | "reqall" :: _ => judgeMulti st caseLine ctoks obsS
     | "respall" :: _ => judgeMulti st caseLine ctoks obsS
@@ -604,6 +615,7 @@ def judgeLine (st : JState) (l : String) : JState × List String :=
     | "swar" :: _ => judgeScan st caseLine ctoks otoks
     | "scanat" :: _ => judgeScan st caseLine ctoks otoks
     | "classes" :: _ => judgeScan st caseLine ctoks otoks
+    | "errtext" :: _ => judgeScan st caseLine ctoks otoks
     | "utf8" :: _ => judgeScan st caseLine ctoks otoks
     | "info" :: _ => (st.sample "info" obsS, [])
     | "wit" :: origLen :: rest =>
